@@ -1,11 +1,280 @@
 """Scenarios and comparisons for writes (C03), hostile buffers (C04), text (C06), copy/equals (C20)."""
 
+from worldb import desc as D
+from worldb import driver as drv
+from worldb import model as M
+from worldb import model2
 from worldb import scen
+
+_paths_cache = {}
+
+
+def write_paths(module, st):
+    key = (id(module), st)
+    if key not in _paths_cache:
+        g = drv.DriverGen(module, ["write"])
+        _paths_cache[key] = [p for p, _a, _k, _e in g.write_paths(module.struct(st))]
+    return _paths_cache[key]
+
+
+def _message(rng, module, sd, params, kind):
+    """(bytes, valid) for a sender's buffer of the given kind."""
+    if kind == "garbage":
+        return bytes(rng.getrandbits(8) for _ in range(rng.randint(0, 48))), False
+    r = scen.synth_message(rng, module, sd, params, satisfy=0.4 if kind == "broken" else 0.95)
+    if r is None:
+        return bytes(rng.getrandbits(8) for _ in range(rng.randint(0, 48))), False
+    msg, valid = r
+    if kind == "truncated" and len(msg) > 0:
+        msg, valid = msg[: rng.randrange(len(msg))], False
+    elif kind == "flipped" and len(msg) > 0:
+        b = bytearray(msg)
+        for _ in range(rng.randint(1, 3)):
+            i = rng.randrange(len(b) * 8)
+            b[i // 8] ^= 1 << (i % 8)
+        msg, valid = bytes(b), False
+    elif kind == "oversized":
+        msg = msg + bytes(rng.getrandbits(8) for _ in range(rng.randint(1, 9)))
+    return msg, valid
+
+
+def scenario_writes(rng, module, cfg, hostile=False):
+    st = rng.choice(module.mains)
+    sd = module.struct(st)
+    params = scen.draw_params(rng, sd)
+    kinds = ["valid", "valid", "valid", "truncated", "flipped", "broken", "oversized"]
+    if hostile:
+        kinds += ["garbage", "garbage", "truncated"]
+    kind = rng.choice(kinds)
+    msg, _valid = _message(rng, module, sd, params, kind)
+    ops = [{"op": "reset"}, {"op": "alloc", "arena": "tx", "hex": msg.hex(), "base": rng.choice([0, 0, 1, 3, 5])}]
+    ob = {"op": "observe", "struct": st, "params": params, "arena": "tx", "off": 0, "len": len(msg)}
+    ops.append(dict(ob))
+    paths = write_paths(module, st)
+    if not paths:
+        return ops
+    # the values are chosen against the state the model predicts at that point
+    script = scen.Script(module)
+    for j, op in enumerate(ops):
+        script.add_op(op, (0, j))
+    for _ in range(rng.randint(3, 10)):
+        path = rng.choice(paths)
+        env = script.env(st, params, "tx", 0, len(msg))
+        vals = scen.write_values(rng, module, env, path)
+        v = rng.choice(vals)
+        op = {"op": "write", "struct": st, "params": params, "arena": "tx", "off": 0, "len": len(msg), "path": path, "value": v}
+        ops.append(op)
+        script.add_op(op, (0, len(ops)))
+        if rng.random() < 0.4:
+            ops.append(dict(ob))
+            script.add_op(ops[-1], (0, len(ops)))
+    ops.append(dict(ob))
+    return ops
+
+
+def scenario_copy(rng, module, cfg, hostile=False):
+    st = rng.choice(module.mains)
+    sd = module.struct(st)
+    params = scen.draw_params(rng, sd)
+    kinds = ["valid", "valid", "valid", "broken", "truncated", "flipped"] + (["garbage"] * 2 if hostile else [])
+    a, a_valid = _message(rng, module, sd, params, rng.choice(kinds))
+    ops = [{"op": "reset"}]
+    mode = rng.choice(["separate", "separate", "overlap", "equal_variants"])
+    if mode == "overlap" and len(a) > 0:
+        # receiver-side compaction: source and destination share one arena, shifted by d
+        size = len(a)
+        d = rng.randint(-size, size)
+        pad = rng.randint(0, 4)
+        lead = max(0, -d) + pad
+        arena = bytearray(rng.getrandbits(8) for _ in range(lead + size + max(0, d) + pad + rng.randint(0, 3)))
+        soff = lead
+        doff = lead + d
+        arena[soff: soff + size] = a
+        ops.append({"op": "alloc", "arena": "rx", "hex": bytes(arena).hex(), "base": rng.choice([0, 1, 2])})
+        dlen = rng.choice([size, size, size + 1, max(0, size - 1), len(arena) - doff])
+        dlen = max(0, min(dlen, len(arena) - doff))
+        ops.append({"op": "copy", "struct": st, "params": params, "arena": "rx", "off": doff, "len": dlen,
+                    "src": "rx", "soff": soff, "slen": size})
+        ops.append({"op": "observe", "struct": st, "params": params, "arena": "rx", "off": doff, "len": dlen})
+        return ops
+    ops.append({"op": "alloc", "arena": "src", "hex": a.hex(), "base": rng.choice([0, 1])})
+    if mode == "equal_variants":
+        b = bytearray(a)
+        variant = rng.choice(["same", "flip_any", "flip_any", "other_message", "extend"])
+        if variant == "flip_any" and len(b):
+            i = rng.randrange(len(b) * 8)
+            b[i // 8] ^= 1 << (i % 8)
+        elif variant == "other_message":
+            b = bytearray(_message(rng, module, sd, params, "valid")[0])
+        elif variant == "extend":
+            b += bytes(rng.getrandbits(8) for _ in range(rng.randint(1, 5)))
+        ops.append({"op": "alloc", "arena": "dst", "hex": bytes(b).hex(), "base": rng.choice([0, 3])})
+        ops.append({"op": "equals", "struct": st, "params": params, "arena": "dst", "off": 0, "len": len(b),
+                    "src": "src", "soff": 0, "slen": len(a)})
+        return ops
+    # copy into a store slot of some relative size
+    dl = rng.choice([len(a), len(a), len(a) + 1, len(a) + 7, max(0, len(a) - 1), 0, rng.randint(0, len(a) + 8)])
+    filler = bytes(rng.getrandbits(8) for _ in range(dl + rng.randint(0, 4)))
+    ops.append({"op": "alloc", "arena": "dst", "hex": filler.hex(), "base": rng.choice([0, 2])})
+    ops.append({"op": "equals", "struct": st, "params": params, "arena": "dst", "off": 0, "len": dl, "src": "src", "soff": 0, "slen": len(a)})
+    ops.append({"op": "copy", "struct": st, "params": params, "arena": "dst", "off": 0, "len": dl, "src": "src", "soff": 0, "slen": len(a)})
+    ops.append({"op": "observe", "struct": st, "params": params, "arena": "dst", "off": 0, "len": dl})
+    ops.append({"op": "equals", "struct": st, "params": params, "arena": "dst", "off": 0, "len": dl, "src": "src", "soff": 0, "slen": len(a)})
+    return ops
+
+
+TEXT_OPTIONS = [(ml, cm, grp, base) for ml in (0, 1) for cm in (0, 1) for grp in (0, 4, 8) for base in (2, 10, 16)
+                if not (grp == 8 and base == 10) and not (grp == 4 and base == 10 and False)]
+
+
+def _has_array(module, sd, seen=None):
+    seen = seen or set()
+    if sd.name in seen:
+        return False
+    seen.add(sd.name)
+    for f in sd.fields:
+        t = f.type
+        if isinstance(t, D.ArrayT):
+            return True
+        if isinstance(t, D.StructRef) and _has_array(module, module.struct(t.name), seen):
+            return True
+    return False
+
+
+def scenario_text(rng, module, cfg, hostile=False):
+    st = rng.choice(module.mains)
+    sd = module.struct(st)
+    params = scen.draw_params(rng, sd)
+    kind = rng.choice(["valid", "valid", "valid", "valid", "broken"] + (["garbage", "truncated", "flipped"] if hostile else []))
+    msg, valid = _message(rng, module, sd, params, kind)
+    ops = [{"op": "reset"}, {"op": "alloc", "arena": "a", "hex": msg.hex(), "base": rng.choice([0, 1])}]
+    ob = {"struct": st, "params": params}
+    ops.append(dict(ob, op="observe", arena="a", off=0, len=len(msg)))
+    mode = rng.choice(["roundtrip", "roundtrip", "roundtrip", "literal", "literal_corrupt", "channel_fault"])
+    env = scen.make_env(module, sd, params, bytearray(msg), 0, len(msg))
+    is_ok = env.ok()
+    if mode in ("literal", "literal_corrupt") and is_ok:
+        corrupt = None
+        expect = "1"
+        desc = None
+        if mode == "literal_corrupt":
+            cands = []
+            for name, f, container in env.fields():
+                if not f.is_virtual and isinstance(f.type, D.Scalar) and f.type.kind in ("UInt", "Int") and env.has(name) is True:
+                    cands.append((name, f))
+            if cands:
+                name, f = rng.choice(cands)
+                lo, hi = M.scalar_range(f.type, module)
+                bad = rng.choice([str(hi + 1), str(lo - 1), str(1 << 64), str(-(1 << 63) - 1), "0x", "12_", "--1", "0b", "1__2x",
+                                  hex(hi + 1), "99999999999999999999999"])
+                corrupt = {"path": name, "depth": 0, "text": bad}
+                expect = "0"
+                desc = {"field": name, "text": bad, "kind": "out_of_range" if bad.lstrip("-").isdigit() or bad.startswith("0x") and len(bad) > 2 else "malformed"}
+        text, sets = model2.literal_text(rng, env, corrupt=corrupt)
+        ops.append({"op": "alloc", "arena": "b", "hex": bytes(len(msg)).hex(), "base": rng.choice([0, 2])})
+        ops.append(dict(ob, op="restore_literal", arena="b", off=0, len=len(msg), text=text, sets=[[list(p), v] for p, v in sets],
+                        expect=expect, corrupted=corrupt is not None, corruption=desc))
+        if expect == "1":
+            ops.append({"op": "bytes", "arena": "b"})
+        return ops
+    ml, cm, grp, base = rng.choice(TEXT_OPTIONS)
+    ops.append(dict(ob, op="dump", arena="a", off=0, len=len(msg), ml=ml, cm=cm, grp=grp, base=base, slot="s"))
+    ops.append({"op": "alloc", "arena": "b", "hex": bytes(len(msg)).hex(), "base": rng.choice([0, 2])})
+    faulted = False
+    if mode == "channel_fault" or not is_ok:
+        ops.append({"op": "channel", "slot": "s", "kind": rng.choice(["trunc", "trunc", "drop", "dup", "nine"]), "arg": rng.randint(0, 120)})
+        faulted = True
+    expect = "1" if (is_ok and not faulted) else None
+    ops.append(dict(ob, op="restore_slot", arena="b", off=0, len=len(msg), slot="s", expect=expect, ml=ml, faulted=faulted,
+                    has_array=_has_array(module, sd)))
+    if expect == "1":
+        ops.append(dict(ob, op="observe_restored", arena="b", off=0, len=len(msg), like_arena="a", like_off=0, like_len=len(msg)))
+        if not model2.has_skip(module, sd):
+            ops.append(dict(ob, op="equals_restored", arena="b", off=0, len=len(msg), src="a", soff=0, slen=len(msg), expect="11"))
+    return ops
+
+
+def scenario_hostile(rng, module, cfg):
+    """Every checked call, in random order, on buffers of random length and content."""
+    r = rng.random()
+    if r < 0.3:
+        return scen.scenario_stream(rng, module, dict(cfg, stream_weights=[1, 4, 3, 3, 1, 2]))
+    if r < 0.55:
+        return scenario_writes(rng, module, cfg, hostile=True)
+    if r < 0.75:
+        return scenario_copy(rng, module, cfg, hostile=True)
+    return scenario_text(rng, module, cfg, hostile=True)
 
 
 def scenario_for(prop, rng, module, cfg):
-    return scen.scenario_stream(rng, module, cfg)
+    if prop == "C03":
+        return scenario_writes(rng, module, cfg)
+    if prop == "C20":
+        return scenario_copy(rng, module, cfg)
+    if prop == "C06":
+        return scenario_text(rng, module, cfg)
+    return scenario_hostile(rng, module, cfg)
+
+
+# ---------------------------------------------------------------------------
+# comparisons for copy / equals / text expectations
 
 
 def compare_other(exp, got, fail, line, counters, prop):
+    """Returns True when the rest of the scenario should not be compared."""
+    kind = exp["kind"]
+    counters["ops_checked"] = counters.get("ops_checked", 0) + 1
+    if kind == "copy":
+        facts = exp["facts"]
+        counters["probe.copy_" + ("ok" if exp["result"] == "1" else "refused")] = counters.get("probe.copy_" + ("ok" if exp["result"] == "1" else "refused"), 0) + 1
+        if facts.get("overlap"):
+            counters["probe.copy_overlap_" + facts["direction"]] = counters.get("probe.copy_overlap_" + facts["direction"], 0) + 1
+        if not facts["src_ok"]:
+            counters["probe.copy_rejected_src_not_ok"] = counters.get("probe.copy_rejected_src_not_ok", 0) + 1
+        elif not facts["fits"]:
+            counters["probe.copy_rejected_dest_small"] = counters.get("probe.copy_rejected_dest_small", 0) + 1
+        if got.get("copy") != exp["result"]:
+            fail("copy_result_mismatch", [exp["result"], "src_ok" if facts["src_ok"] else "src_not_ok", "fits" if facts["fits"] else "too_small"],
+                 {"expected": exp["result"], "observed": got.get("copy")}, line, facts, pr="C20")
+            return True
+        if got.get("dst") != exp["dst"] or (not facts["same_arena"] and got.get("src") != exp["src"]):
+            fail("copy_effect_mismatch", ["succeeded" if exp["result"] == "1" else "refused", "overlap_" + facts["direction"] if facts.get("overlap") else "disjoint"],
+                 {"expected_dst": exp["dst"], "observed_dst": got.get("dst"), "expected_src": exp["src"], "observed_src": got.get("src")}, line, facts, pr="C20")
+            return True
+        return False
+    if kind == "equals":
+        if exp.get("requires_line") is not None:
+            pass
+        if exp["value"] is None:
+            counters["unspecified"] = counters.get("unspecified", 0) + 1
+            return False
+        k = "probe.equals_" + exp["value"].replace("/", "")
+        counters[k] = counters.get(k, 0) + 1
+        if got.get("equals") != exp["value"]:
+            fail("equals_mismatch", [exp["value"], "restored" if exp.get("restored") else "direct"],
+                 {"expected": exp["value"], "observed": got.get("equals")}, line, {"restored": bool(exp.get("restored"))},
+                 pr="C06" if exp.get("restored") else "C20")
+            return True
+        return False
+    if kind == "restore":
+        facts = dict(exp.get("facts", {}))
+        if exp.get("expected") is None:
+            counters["unspecified"] = counters.get("unspecified", 0) + 1
+            if facts.get("faulted"):
+                counters["fault.text_channel"] = counters.get("fault.text_channel", 0) + 1
+            return False
+        if exp["expected"] == "0":
+            counters["probe.text_reject_expected"] = counters.get("probe.text_reject_expected", 0) + 1
+        if got.get("restore") != exp["expected"]:
+            fail("restore_result_mismatch", [exp["expected"], "literal" if facts.get("literal") else "writer_output",
+                                             "multiline" if facts.get("multiline") else "single_line",
+                                             (facts.get("corruption") or {}).get("kind")],
+                 {"expected": exp["expected"], "observed": got.get("restore"), "corruption": facts.get("corruption")}, line, facts, pr="C06")
+            return True
+        if exp.get("bytes") is not None and got.get("bytes") != exp["bytes"]:
+            fail("restore_effect_mismatch", ["literal"], {"expected": exp["bytes"], "observed": got.get("bytes")}, line, facts, pr="C06")
+            return True
+        return False
+    if kind in ("dump", "channel", "null"):
+        return False
     return False
